@@ -81,6 +81,12 @@ func scriptsFor[V any](tname string, data func(seed int) []V) []script {
 			v := cdc.Notation().Make().ParseSource(fmt.Sprintf("[%d, %d](Set)", seed+5, seed))
 			return cdc.Notation().Make().FormatValue(v)
 		}},
+		{"ParseSource-via-class-notation", func(seed int) string {
+			// a different collection per thread, but collections of one element type share the notation cached in their class
+			l := col.List[V](N()).MakeFromArray(data(seed))
+			v := l.GetClass().Notation().ParseSource(fmt.Sprintf("[%d, %d](Set)", seed+5, seed))
+			return cdc.Notation().Make().FormatValue(v)
+		}},
 		{"iterate", func(seed int) string {
 			l := col.List[V](N()).MakeFromArray(data(seed))
 			it := l.GetIterator()
